@@ -28,12 +28,12 @@ RULE = ("cases = terminal states of the Conservation_MC build/inact slices (TLC)
 ASSUMPTIONS = [
     "all substances carry compositions (the statement's precondition); duplicate reactions and unknown keys are outside the model",
     "the ValueError text is projected to the first integer in '(<key>: ' - the key it names",
-    "drift of an integration is encoded as ceil(|B.y - B.c0| * 1e12) per row; allowed drift per unit row weight is the trace constant DriftTolE12 (1e-7) at requested atol = rtol = 1e-9",
+    "drift of an integration is encoded as ceil(|B.y - B.c0| * 1e12) per row; allowed drift per unit row weight is the trace constant DriftTolE12 (1e-8; observed drift on the pinned tree: 1e-12) at requested atol = rtol = 1e-9",
     "rates are observed with int concentrations and int/Fraction rate constants (exact arithmetic in the library)",
 ]
 
-QUICK = [("build_q", ["GenSubstance", "GenReaction", "Build", "GenFinish"], 800, 30),
-         ("inact_q", ["GenReaction", "Build"], 400, 10)]
+QUICK = [("build_q", ["GenSubstance", "GenReaction", "Build", "GenFinish"], 500, 24),
+         ("inact_q", ["GenReaction", "Build"], 250, 8)]
 THOROUGH = [("build_t", [], None, 400), ("inact_t", [], None, 100), ("build3_t", [], None, 150)]
 DYN_QUICK = [("dyn_q", ["GenSetState", "GenEulerStep", "GenSafeStep"])]
 DYN_THOROUGH = [("dyn_t", [])]
@@ -100,12 +100,12 @@ def deep_events(rsys, sysin, exp, rng):
         skips.append("unencodable linear_invariants")
     else:
         evs.append({"ev": "BVectors", "B": A, "keys": inv_names, "src": "odesys.linear_invariants"})
-    # analytic eliminations: all (preferred=None), each single substance, a few pairs
+    # analytic eliminations: all (preferred=None), each single substance, pairs
     if extra["linear_dependencies"] is not None:
         prefs = [None] + [[n] for n in names]
         pairs = [[a, b] for i, a in enumerate(names) for b in names[i + 1:]]
         rng.shuffle(pairs)
-        prefs += pairs[:3]
+        prefs += pairs if len(names) <= 5 else pairs[:6]
         for pref in prefs:
             kind, val = cc.observe_lindep(odesys, extra, pref)
             if kind == "refused":
@@ -168,7 +168,12 @@ def replay_case(item):
             tr = cc.system_events(rin) + [cc.build_event(obs)]
             if rsys is not None:
                 rng = random.Random("%s-%d" % (sys_ident(sysin), seed))
-                evs, skips = deep_events(rsys, rin, red, rng)
+                try:
+                    evs, skips = deep_events(rsys, rin, red, rng)
+                except core.MachineryFailure:
+                    raise
+                except Exception as e:  # the ODE builder / integrator refused: not judged here
+                    evs, skips = [], ["deep observation raised %s" % type(e).__name__]
                 tr += evs
                 out["skips"] += skips
             tr.append({"ev": "End"})
@@ -182,7 +187,7 @@ def judge_traces(ctx, items, source):
     """items: list of (key-dict, trace, observed); TLC decides."""
     if not items:
         return
-    verdicts = ctx.validate_traces("ConservationTrace", TRACE_CFG, [t for _, t, _ in items], chunk=1500)
+    verdicts = ctx.validate_traces("ConservationTrace", TRACE_CFG, [t for _, t, _ in items], chunk=4000)
     for (key, tr, obs), (v, pos, clause) in zip(items, verdicts):
         if v == "accept":
             continue
@@ -195,19 +200,17 @@ def judge_traces(ctx, items, source):
                           "verdict": {"verdict": v, "pos": pos, "clause": clause}, "tlc_cfg": TRACE_CFG})
 
 
-def run_slice(ctx, sl, actions, n_cases, n_deep):
-    res = ctx.tlc("Conservation_MC", "Conservation_MC_%s.cfg" % sl, require_actions=actions,
-                  require_cases=20, timeout=1500)
+def run_slice(ctx, sl, res, n_cases, n_deep, titems, n_rej_traces=None):
     cases = res.cases
     acc = [c for c in cases if c["exp"]["accept"]]
     if not acc or len(acc) == len(cases):
         raise core.MachineryFailure("vacuity: slice %s has %d accepted of %d systems" % (sl, len(acc), len(cases)))
-    sel = ctx.pick(cases, n_cases, always=lambda c: c["exp"]["accept"] or "single" in c["cls"])
+    sel = ctx.pick(cases, n_cases, always=lambda c: c["exp"]["accept"])
     acc_sel = [c for c in sel if c["exp"]["accept"]]
     deep_ids = set(id(c) for c in ctx.pick(acc_sel, n_deep))
     outs = ctx.pmap(replay_case, [(c, id(c) in deep_ids, ctx.seed) for c in sel])
     ctx.cases_replayed += len(sel)
-    titems = []
+    rej_budget = [n_rej_traces]
     for case, out in zip(sel, outs):
         if out["error"]:
             raise core.MachineryFailure(out["error"])
@@ -221,8 +224,11 @@ def run_slice(ctx, sl, actions, n_cases, n_deep):
                           {"direction": "spec->code", "case": case, "observed": b["observed"],
                            "expected": b["expected"], "tlc_cfg": "Conservation_MC_%s.cfg" % sl})
         for route, tr, obs in out["traces"]:
-            titems.append(({"fn": "ReactionSystem/" + route, "cls": case["cls"], "lines": sysin["lines"]}, tr, obs))
-    judge_traces(ctx, titems, sl)
+            if not case["exp"]["accept"] and rej_budget[0] is not None:
+                if rej_budget[0] <= 0:
+                    continue   # rejected systems beyond the budget are judged by the direct comparison only
+                rej_budget[0] -= 1
+            titems.append(({"fn": "ReactionSystem/" + route, "cls": case["cls"], "lines": sysin["lines"], "slice": sl}, tr, obs))
     ctx.counters["deep_systems"] += len(deep_ids)
     if acc_sel:
         c = acc_sel[0]
@@ -348,20 +354,25 @@ def run_seeded(item):
 
 def run(ctx):
     import chempy  # noqa
-    for sl, actions, n_cases, n_deep in (QUICK if ctx.quick else THOROUGH):
-        run_slice(ctx, sl, actions, n_cases, n_deep)
-    for sl, actions in (DYN_QUICK if ctx.quick else DYN_THOROUGH):
-        ctx.tlc("Conservation_MC", "Conservation_MC_%s.cfg" % sl, require_actions=actions, timeout=1500)
+    titems = []
+    slices = QUICK if ctx.quick else THOROUGH
+    dyn = DYN_QUICK if ctx.quick else DYN_THOROUGH
+    jobs = [("Conservation_MC", "Conservation_MC_%s.cfg" % sl, dict(require_actions=a, require_cases=20, timeout=1500))
+            for sl, a, _, _ in slices]
+    jobs += [("Conservation_MC", "Conservation_MC_%s.cfg" % sl, dict(require_actions=a, timeout=1500)) for sl, a in dyn]
+    results = cc.tlc_many(ctx, jobs, workers=6 if ctx.quick else 8)
+    for (sl, actions, n_cases, n_deep), res in zip(slices, results):
+        run_slice(ctx, sl, res, n_cases, n_deep, titems, n_rej_traces=None if ctx.quick else 6000)
     ctx.exhaustive = not ctx.quick
 
     # code -> spec: seeded formula-defined systems beyond the pool
-    n = 400 if ctx.quick else 6000
+    n = 300 if ctx.quick else 6000
     items = []
     for i in range(n):
         names, rx = seeded_system(ctx.rng)
         items.append((names, rx, ctx.rng.randrange(10 ** 9)))
     outs = ctx.pmap(run_seeded, items)
-    titems = []
+    n_before = len(titems)
     raised = 0
     for o in outs:
         if o is None:
@@ -370,14 +381,14 @@ def run(ctx):
         names, lines, tr, obs = o
         raised += bool(obs["raised"])
         ctx.ran(core.stable_hash([names, lines]), nontrivial=True)
-        titems.append(({"fn": "ReactionSystem/seeded", "substances": names, "lines": lines}, tr, obs))
-    if titems and not (0 < raised < len(titems)):
+        titems.append(({"fn": "ReactionSystem/seeded", "substances": names, "lines": lines, "slice": "seeded"}, tr, obs))
+    if len(titems) > n_before and not (0 < raised < len(titems) - n_before):
         raise core.MachineryFailure("vacuity: seeded systems all %s" % ("rejected" if raised else "accepted"))
-    judge_traces(ctx, titems, "seeded")
     ctx.counters["seeded_rejected_by_library"] = raised
-    ctx.counters["seeded_accepted_by_library"] = len(titems) - raised
-    if titems:
-        ctx.sample({"seeded_trace": titems[0][1]}, cap=8)
+    ctx.counters["seeded_accepted_by_library"] = len(titems) - n_before - raised
+    if len(titems) > n_before:
+        ctx.sample({"seeded_trace": titems[n_before][1]}, cap=8)
+    judge_traces(ctx, titems, "C05")
 
 
 def replay(ctx, rec):
@@ -401,7 +412,7 @@ def replay(ctx, rec):
             return "%s -> %s; %s" % (side(r["reac"], r["ireac"]), side(r["prod"], r["iprod"]), k)
         sysin = {"subs": subs, "rxns": rxns, "lines": [line(r) for r in rxns],
                  "tout": [[1, 100], [1, 10], [1, 1], [5, 1]],
-                 "tol": {"atol": [1, 10 ** 9], "rtol": [1, 10 ** 9], "guard": 5000}}
+                 "tol": {"atol": [1, 10 ** 9], "rtol": [1, 10 ** 9], "guard": 200}}
         text_route = str(rec["key"].get("fn", "")).endswith("/text")
         rsys, obs = (cc.build_text if text_route else cc.build_obj)(sysin)
         new = cc.system_events(sysin) + [cc.build_event(obs)]
